@@ -10,13 +10,16 @@ EXPLANATION = (
     "function of the tables. Syntactic frame obligations: mro/resolve/TypeMap.__missing__ read no cache field. B: resolve's writes (keys embed the "
     "resolved tuple; values are functions of the ranks) for <=3 ranks x <=2 methods - this bounded part is why the level is 'other'."
 )
-ASSUMPTIONS = ["a fixed method set (registration is C05)", "wrappers generated per resolution are compared up to (rank, fall-through)"]
+ASSUMPTIONS = [
+    'MultiTypeMap.resolve (mode U): every registered method is a function with its own code object (adapt_function / rename_code give each adapted method a fresh one)',
+    'MultiTypeMap.resolve (mode U): mro returns non-empty groups and puts each method in exactly one group (mro.positions / mro._pull)',
+    "a fixed method set (registration is C05)", "wrappers generated per resolution are compared up to (rank, fall-through)"]
 TRUSTED = ["dict.__getitem__ calls __missing__ only on a miss", "contract of resolve at its call site in __missing__ (shape discharged in bounded mode)"]
 BOUNDS = {"resolve": "<=3 ranks, <=2 methods per rank"}
 
 
 def tasks(tier):
-    return _tm.mtm_missing_tasks(("plain", "coded", "empty")) + _tm.typemap_tasks()[:2] + _tm.resolve_tasks(tier) + _tm.frame_tasks() + _tm.wrap_tasks() + _tm.e2e_tasks(["complete"], "quick")[:4]
+    return _tm.mtm_missing_tasks(("plain", "coded", "empty")) + _tm.typemap_tasks()[:2] + _tm.resolve_tasks(tier) + _tm.resolve_unbounded_tasks() + _tm.frame_tasks() + _tm.state_tasks() + _tm.wrap_tasks() + _tm.e2e_tasks(["complete"], "quick")[:4]
 
 
 def conformance(tier):
